@@ -29,6 +29,9 @@ pub enum IOp {
     /// n deliveries back to back (fills the per-signal buffer of the info-carrying exfiltrators)
     Burst { sig: u8, n: u8 },
     AddSignal { sig: u8 },
+    /// `times` attempts to add a number the OS rejects (65, 127 or glibc's reserved 33): each
+    /// attempt gets as far as preparing the exfiltrator's slot and then fails with an error
+    AddRejected { n: u8, times: u8 },
     Close,
     IsClosed,
 }
@@ -80,6 +83,9 @@ pub struct IterCase {
     /// application, before any iterator existed
     #[serde(default)]
     pub plain_first: bool,
+    /// vsched::Config::hold: (thread, k-th pointer-valued load, steps to stay away)
+    #[serde(default)]
+    pub hold: Option<(u8, u8, u16)>,
 }
 
 pub fn strategy(with_close: bool) -> BoxedStrategy<IterCase> {
@@ -88,6 +94,7 @@ pub fn strategy(with_close: bool) -> BoxedStrategy<IterCase> {
             6 => (0u8..3).prop_map(|sig| IOp::Deliver { sig }),
             1 => (0u8..3, 4u8..8).prop_map(|(sig, n)| IOp::Burst { sig, n }),
             1 => (0u8..3).prop_map(|sig| IOp::AddSignal { sig }),
+            1 => (0u8..3, 2u8..7).prop_map(|(n, times)| IOp::AddRejected { n, times }),
             3 => Just(IOp::Close),
             2 => Just(IOp::IsClosed),
         ]
@@ -97,6 +104,7 @@ pub fn strategy(with_close: bool) -> BoxedStrategy<IterCase> {
             8 => (0u8..3).prop_map(|sig| IOp::Deliver { sig }),
             2 => (0u8..3, 4u8..8).prop_map(|(sig, n)| IOp::Burst { sig, n }),
             1 => (0u8..3).prop_map(|sig| IOp::AddSignal { sig }),
+            1 => (0u8..3, 2u8..7).prop_map(|(n, times)| IOp::AddRejected { n, times }),
             1 => Just(IOp::IsClosed),
         ]
         .boxed()
@@ -120,10 +128,13 @@ pub fn strategy(with_close: bool) -> BoxedStrategy<IterCase> {
         prop_oneof![1 => Just(vec![]), 1 => vec(0u8..3, 1..5)],
         prop_oneof![3 => Just(0u8), 1 => 1u8..4],
         prop::bool::weighted(0.5),
-        prop_oneof![2 => Just(1u8), 1 => Just(2u8), 2 => Just(4u8), 1 => Just(8u8)],
-        prop::bool::weighted(0.25),
+        (
+            prop_oneof![2 => Just(1u8), 1 => Just(2u8), 2 => Just(4u8), 1 => Just(8u8)],
+            prop::bool::weighted(0.25),
+            prop::option::weighted(0.35, (prop_oneof![3 => Just(0u8), 1 => 0u8..4], 1u8..12, prop_oneof![1 => 20u16..80, 1 => 80u16..400])),
+        ),
     )
-        .prop_map(|(exf, consumer, polls, mut init, mut others, nested, schedule, late, failed_ctor, handoff, stretch, plain_first)| {
+        .prop_map(|(exf, consumer, polls, mut init, mut others, nested, schedule, late, failed_ctor, handoff, (stretch, plain_first, hold))| {
             // one case in eight: two threads add the same, not yet watched signal at the same time
             // (derived from values already drawn, so that shrinking stays monotone)
             if schedule.len() % 8 == 3 {
@@ -155,7 +166,7 @@ pub fn strategy(with_close: bool) -> BoxedStrategy<IterCase> {
             }
             let n = others.len() + 1;
             let nested = nested.into_iter().map(|(t, at, sig, on)| INested { thread: t % n, at, sig, on }).collect();
-            IterCase { exf, consumer, polls, init, others, nested, schedule, late, failed_ctor, handoff, stretch, plain_first }
+            IterCase { exf, consumer, polls, init, others, nested, schedule, late, failed_ctor, handoff, stretch, plain_first, hold }
         })
         .boxed()
 }
@@ -572,6 +583,7 @@ pub fn execute(case: &IterCase) -> (RunResult, CaseReport) {
         // go on after a detected race so that its consequences reach the C09/C10 oracles
         abort_on_cell_race: false,
         stretch: case.stretch,
+        hold: case.hold.map(|(t, k, n)| (t as usize % (case.others.len() + 1), k as u32, n as u32)),
     };
     let exec = Exec::new(cfg, n);
     {
@@ -632,6 +644,24 @@ pub fn execute(case: &IterCase) -> (RunResult, CaseReport) {
                             let ok = matches!(r, Ok(Ok(())));
                             vsched::ret(c, ok as i64);
                             vsched::mark("add-ret", s as i64, ok as i64);
+                        }
+                    }
+                    IOp::AddRejected { n, times } => {
+                        if let Some(h) = get_handle() {
+                            let bad = [65, 127, 33][*n as usize % 3];
+                            for _ in 0..*times {
+                                let c = vsched::call("add_rejected", bad as i64, 0);
+                                let r = std::panic::catch_unwind(std::panic::AssertUnwindSafe(|| h.add_signal(bad)));
+                                let code = match r {
+                                    Ok(Err(_)) => 0,
+                                    Ok(Ok(())) => 1,
+                                    Err(_) => 2,
+                                };
+                                vsched::ret(c, code);
+                                if code != 0 {
+                                    vsched::violate("C12/outcome", format!("add_signal({}) must return an error (the OS rejects the number); it {}", bad, if code == 1 { "returned Ok" } else { "panicked" }));
+                                }
+                            }
                         }
                     }
                     IOp::Close => {
@@ -827,6 +857,9 @@ pub fn analyse(case: &IterCase, res: &RunResult) -> CaseReport {
             if r.tid == 0 {
                 for k in ["C09/consumer-panic", "C10/consumer-panic", "C11/consumer-panic"] {
                     rep.viol(k, format!("the consumer panicked: {}", msg));
+                }
+                if msg.contains("channel.rs") {
+                    rep.viol("C07/channel-panic", format!("the consumer panicked inside the channel of an info-carrying exfiltrator (its memory was not what the channel protocol guarantees): {}", msg));
                 }
                 if msg.contains("Full slot with nothing") {
                     rep.viol("C08/panic=full-slot-empty", format!("recv on an exfiltrator's channel panicked: {}", msg));
@@ -1244,7 +1277,7 @@ pub fn run_case(case: &IterCase) -> CaseReport {
     if rep.violations.is_empty() {
         if let Some(s) = rep.sample.as_mut() {
             if let Some(t) = s.get_mut("trace").and_then(|t| t.as_array_mut()) {
-                t.truncate(80);
+                if std::env::var_os("VERIF_TRACE_MAX").is_none() { t.truncate(80); }
             }
         }
     }
